@@ -600,6 +600,10 @@ func checkPools(r *Run, rc *RuleCtx, T *types.Named, resetTo *ssa.Function) {
 		poolOf := func(fn *ssa.Function, method string) *ssa.Global {
 			var g *ssa.Global
 			globalOf := func(v ssa.Value) *ssa.Global {
+				// the pool held in a field of a read-only package-level structure: what the initialiser put there
+				if rv := p.constGlobalField(v); rv != nil {
+					v = rv
+				}
 				if ld, ok := v.(*ssa.UnOp); ok {
 					if gg, ok := ld.X.(*ssa.Global); ok {
 						return gg
@@ -661,8 +665,17 @@ func checkPools(r *Run, rc *RuleCtx, T *types.Named, resetTo *ssa.Function) {
 						// the (size, blocksize) pair is passed as two consecutive constant arguments,
 						// to the assertion itself or to a helper that forwards them to it
 						for ai := 0; ai+1 < len(c.Call.Args); ai++ {
-							s, ok1 := constInt(c.Call.Args[ai])
-							bl, ok2 := constInt(c.Call.Args[ai+1])
+							constR := func(v ssa.Value) (int64, bool) {
+								if cv, okC := constInt(v); okC {
+									return cv, true
+								}
+								if rv := p.constGlobalField(v); rv != nil {
+									return constInt(rv)
+								}
+								return 0, false
+							}
+							s, ok1 := constR(c.Call.Args[ai])
+							bl, ok2 := constR(c.Call.Args[ai+1])
 							if ok1 && ok2 && s == sp.size && bl == sp.blk {
 								if len(c.Call.Args) == 3 || forwardsToAssert(p, sc, ai) {
 									okAssert = true
